@@ -28,7 +28,7 @@ RULE = (
     "refs, arbitrary attributes) attached to nodes, supplied as string vs ast vs callable on two dataset objects with "
     "and without QMetaData, and hashed in a child process with another PYTHONHASHSEED. Different-structure pairs: every "
     "single edit of the query (rename name/attribute/keyword/parameter, constant value, constant type, operator, argument "
-    "order, drop argument, wrap/unwrap nesting, tuple<->list, and re-bracketing edits that keep the leaves and their order but move a list boundary: next sibling into the preceding call/tuple/list/boolean chain and back, currying f(a, b) <-> f(a)(b), re-association of arithmetic, a < b < c <-> a < (b < c), g() <-> g, last parameter -> keyword-only, item into a nested dict) enumerated exhaustively per query. Every pair is non-trivial; "
+    "order, drop argument, wrap/unwrap nesting, tuple<->list, and re-bracketing edits that keep the leaves and their order but move a list boundary: next sibling into the preceding call/tuple/list/boolean chain and back, currying f(a, b) <-> f(a)(b), re-association of arithmetic, a < b < c <-> a < (b < c), g() <-> g, last parameter -> keyword-only, item into a nested dict, the parts of a slice rotated / swapped) enumerated exhaustively per query. Every pair is non-trivial; "
     "distinct by (query, edit) and (query, rendering)."
 )
 ASSUMPTIONS = [
@@ -36,7 +36,7 @@ ASSUMPTIONS = [
     "(independent implementation; absent optional fields equal None).",
     "The process/time independence is sampled with one child process per worker started with a different PYTHONHASHSEED.",
 ]
-BUDGET = {"quick": (4, 250), "thorough": (16, 2500)}
+BUDGET = {"quick": (8, 125), "thorough": (16, 2500)}
 
 _CFG = untyped.Cfg(const_kinds="iifssby")
 
@@ -141,7 +141,7 @@ def _lookalikes(s):
 
 
 REBRACKET = {"move-next-sibling-into-child", "move-last-grandchild-out", "curry-last-arg", "uncurry", "binop-reassociate", "compare-renest",
-             "compare-flatten", "call-without-args->callee", "last-param->keyword-only", "move-next-item-into-child-dict"}
+             "compare-flatten", "call-without-args->callee", "slice-parts-rotated", "slice-bounds-swapped", "last-param->keyword-only", "move-next-item-into-child-dict"}
 
 
 def edits(tree):
@@ -285,6 +285,15 @@ def edits(tree):
                 inner = m.comparators[0]
                 m.ops, m.comparators = m.ops + inner.ops, [inner.left] + inner.comparators
             yield mut(flatten, "compare-flatten")
+        if isinstance(n, ast.Slice) and len({ast.dump(x) if x is not None else None for x in (n.lower, n.upper, n.step)}) > 1:
+            # x[a:] -> x[:a] -> x[::a]: the same expressions in other parts of the slice
+            def rotate(m, t):
+                m.lower, m.upper, m.step = m.step, m.lower, m.upper
+            yield mut(rotate, "slice-parts-rotated")
+            def swap(m, t):
+                m.lower, m.upper = m.upper, m.lower
+            if ast.dump(n.lower) if n.lower is not None else None != (ast.dump(n.upper) if n.upper is not None else None):
+                yield mut(swap, "slice-bounds-swapped")
         if isinstance(n, ast.Call) and not n.args and not n.keywords:
             # g() -> g : a node whose list fields are all empty vs the bare callee
             def uncall(m, t):
